@@ -31,11 +31,11 @@ CLAIMED = {
     'C14': ('4/C14', 'ESCAPE of DoctestParser.parse on str input, containment handler shape in parse_docstr_examples, style dispatch call-graph extent, loop VARIANT recognition'),
     'C15': ('4/C15', 'TABLE-AGREE of collector and option table between the two front ends, record<->raise PAIRING, skip predicate coincidence by PATH-COUNT'),
     'C16': ('4/C16', 'TABLE-AGREE between the kind tables of the AST visitor and of the module-dict walk'),
+    'C17': ('4/C17', 'edge-dominance guards and precedence of the per-directory candidates, first-hit reachability in search-path order, loop shape of the package walk, def-use derivation of the dotted name, guard table of __init__/__main__ normalisation, FLOW of directory and name into the import by path'),
     'C18': ('4/C18', 'AFFINE numbering of displayed lines, PATH-COUNT of source and want line emission'),
+    'C19': ('4/C19', 'PATH-COUNT of emitted functions per example and body entries per part, identity components of the generated name (TABLE-AGREE with unique_callname), constant formatting options, drop guard of executable lines, want-comment FLOW through utils.indent'),
 }
 NA = {
-    'C17': 'agreement with the interpreter import system quantifies over all directory trees; no clause is visible in the code shape (PEP 420 makes the __init__-chain rule intentionally differ); its sys.path clause is decided under C12',
-    'C19': 'syntactic validity of the generated module depends on the shape of every doctest (re-indented multi-line strings); no finite structural condition implies it',
     'C20': 'behavioural equivalence with the stdlib doctest over all programs needs the stdlib as an executable oracle; the known counter-example (print-and-return) is not a structural defect',
 }
 
